@@ -96,7 +96,9 @@ func ContractJobs(w *core.World, rep *core.Report, keys []string) []Job {
 			rep.Aborted[k] = "contract-binding: no contract found for " + k
 			continue
 		}
-		jobs = append(jobs, Job{Fn: fc.Fn, Spec: fc.Spec()})
+		for _, sp := range fc.Specs() {
+			jobs = append(jobs, Job{Fn: fc.Fn, Spec: sp})
+		}
 	}
 	return jobs
 }
